@@ -8,54 +8,6 @@ From C22 Require Import C22InvSpec C22InvTac C22inv_gen.
 Import ListNotations.
 Local Open Scope R_scope.
 
-Lemma iso2_dss_0 s0 s1 s2 s3 : is_derive (fun x => (iso_ss_2 x s1 s2 s3)) s0 (2 * (s0 - (s0 + s1 + s2) / 3)).
-Proof. unfold iso_ss_2. cutder. Qed.
-Lemma iso2_dj3_0 s0 s1 s2 s3 : is_derive (fun x => (iso_j3_2 x s1 s2 s3)) s0 (iso_b0_2 s0 s1 s2 s3).
-Proof. unfold iso_b0_2, iso_j3_2. cutder. Qed.
-Lemma iso2_db0_0 s0 s1 s2 s3 : is_derive (fun x => (iso_b0_2 x s1 s2 s3)) s0 (iso_h00_2 s0 s1 s2 s3).
-Proof. unfold iso_b0_2, iso_h00_2. cutder. Qed.
-Lemma iso2_db1_0 s0 s1 s2 s3 : is_derive (fun x => (iso_b1_2 x s1 s2 s3)) s0 (iso_h10_2 s0 s1 s2 s3).
-Proof. unfold iso_b1_2, iso_h10_2. cutder. Qed.
-Lemma iso2_db2_0 s0 s1 s2 s3 : is_derive (fun x => (iso_b2_2 x s1 s2 s3)) s0 (iso_h20_2 s0 s1 s2 s3).
-Proof. unfold iso_b2_2, iso_h20_2. cutder. Qed.
-Lemma iso2_db3_0 s0 s1 s2 s3 : is_derive (fun x => (iso_b3_2 x s1 s2 s3)) s0 (iso_h30_2 s0 s1 s2 s3).
-Proof. unfold iso_b3_2, iso_h30_2. cutder. Qed.
-Lemma iso2_dss_1 s0 s1 s2 s3 : is_derive (fun x => (iso_ss_2 s0 x s2 s3)) s1 (2 * (s1 - (s0 + s1 + s2) / 3)).
-Proof. unfold iso_ss_2. cutder. Qed.
-Lemma iso2_dj3_1 s0 s1 s2 s3 : is_derive (fun x => (iso_j3_2 s0 x s2 s3)) s1 (iso_b1_2 s0 s1 s2 s3).
-Proof. unfold iso_b1_2, iso_j3_2. cutder. Qed.
-Lemma iso2_db0_1 s0 s1 s2 s3 : is_derive (fun x => (iso_b0_2 s0 x s2 s3)) s1 (iso_h01_2 s0 s1 s2 s3).
-Proof. unfold iso_b0_2, iso_h01_2. cutder. Qed.
-Lemma iso2_db1_1 s0 s1 s2 s3 : is_derive (fun x => (iso_b1_2 s0 x s2 s3)) s1 (iso_h11_2 s0 s1 s2 s3).
-Proof. unfold iso_b1_2, iso_h11_2. cutder. Qed.
-Lemma iso2_db2_1 s0 s1 s2 s3 : is_derive (fun x => (iso_b2_2 s0 x s2 s3)) s1 (iso_h21_2 s0 s1 s2 s3).
-Proof. unfold iso_b2_2, iso_h21_2. cutder. Qed.
-Lemma iso2_db3_1 s0 s1 s2 s3 : is_derive (fun x => (iso_b3_2 s0 x s2 s3)) s1 (iso_h31_2 s0 s1 s2 s3).
-Proof. unfold iso_b3_2, iso_h31_2. cutder. Qed.
-Lemma iso2_dss_2 s0 s1 s2 s3 : is_derive (fun x => (iso_ss_2 s0 s1 x s3)) s2 (2 * (s2 - (s0 + s1 + s2) / 3)).
-Proof. unfold iso_ss_2. cutder. Qed.
-Lemma iso2_dj3_2 s0 s1 s2 s3 : is_derive (fun x => (iso_j3_2 s0 s1 x s3)) s2 (iso_b2_2 s0 s1 s2 s3).
-Proof. unfold iso_b2_2, iso_j3_2. cutder. Qed.
-Lemma iso2_db0_2 s0 s1 s2 s3 : is_derive (fun x => (iso_b0_2 s0 s1 x s3)) s2 (iso_h02_2 s0 s1 s2 s3).
-Proof. unfold iso_b0_2, iso_h02_2. cutder. Qed.
-Lemma iso2_db1_2 s0 s1 s2 s3 : is_derive (fun x => (iso_b1_2 s0 s1 x s3)) s2 (iso_h12_2 s0 s1 s2 s3).
-Proof. unfold iso_b1_2, iso_h12_2. cutder. Qed.
-Lemma iso2_db2_2 s0 s1 s2 s3 : is_derive (fun x => (iso_b2_2 s0 s1 x s3)) s2 (iso_h22_2 s0 s1 s2 s3).
-Proof. unfold iso_b2_2, iso_h22_2. cutder. Qed.
-Lemma iso2_db3_2 s0 s1 s2 s3 : is_derive (fun x => (iso_b3_2 s0 s1 x s3)) s2 (iso_h32_2 s0 s1 s2 s3).
-Proof. unfold iso_b3_2, iso_h32_2. cutder. Qed.
-Lemma iso2_dss_3 s0 s1 s2 s3 : is_derive (fun x => (iso_ss_2 s0 s1 s2 x)) s3 (2 * s3).
-Proof. unfold iso_ss_2. cutder. Qed.
-Lemma iso2_dj3_3 s0 s1 s2 s3 : is_derive (fun x => (iso_j3_2 s0 s1 s2 x)) s3 (iso_b3_2 s0 s1 s2 s3).
-Proof. unfold iso_b3_2, iso_j3_2. cutder. Qed.
-Lemma iso2_db0_3 s0 s1 s2 s3 : is_derive (fun x => (iso_b0_2 s0 s1 s2 x)) s3 (iso_h03_2 s0 s1 s2 s3).
-Proof. unfold iso_b0_2, iso_h03_2. cutder. Qed.
-Lemma iso2_db1_3 s0 s1 s2 s3 : is_derive (fun x => (iso_b1_2 s0 s1 s2 x)) s3 (iso_h13_2 s0 s1 s2 s3).
-Proof. unfold iso_b1_2, iso_h13_2. cutder. Qed.
-Lemma iso2_db2_3 s0 s1 s2 s3 : is_derive (fun x => (iso_b2_2 s0 s1 s2 x)) s3 (iso_h23_2 s0 s1 s2 s3).
-Proof. unfold iso_b2_2, iso_h23_2. cutder. Qed.
-Lemma iso2_db3_3 s0 s1 s2 s3 : is_derive (fun x => (iso_b3_2 s0 s1 s2 x)) s3 (iso_h33_2 s0 s1 s2 s3).
-Proof. unfold iso_b3_2, iso_h33_2. cutder. Qed.
 Lemma ort2_dk2_0 s0 s1 s2 s3 a0 a1 a2 a3 a4 a5 b0 b1 b2 b3 b4 b5 b6 b7 b8 b9 b10 : is_derive (fun x => (ort_k2_2 x s1 s2 s3 a0 a1 a2 a3 a4 a5 b0 b1 b2 b3 b4 b5 b6 b7 b8 b9 b10)) s0 (ort_p0_2 s0 s1 s2 s3 a0 a1 a2 a3 a4 a5 b0 b1 b2 b3 b4 b5 b6 b7 b8 b9 b10).
 Proof. unfold ort_k2_2, ort_p0_2. cutder. Qed.
 Lemma ort2_dk3_0 s0 s1 s2 s3 a0 a1 a2 a3 a4 a5 b0 b1 b2 b3 b4 b5 b6 b7 b8 b9 b10 : is_derive (fun x => (ort_k3_2 x s1 s2 s3 a0 a1 a2 a3 a4 a5 b0 b1 b2 b3 b4 b5 b6 b7 b8 b9 b10)) s0 (ort_r0_2 s0 s1 s2 s3 a0 a1 a2 a3 a4 a5 b0 b1 b2 b3 b4 b5 b6 b7 b8 b9 b10).
